@@ -75,7 +75,7 @@ func cellsMatch(img map[int]string, row []string) bool {
 func runC09(c *Ctx) {
 	w := GetATWorld()
 	rng := NewRng(c.Seed)
-	n := c.Budget(300, 10000)
+	n := c.Budget(300, 30000)
 	for i := 0; i < n; i++ {
 		r := rng.Fork()
 		cid := fmt.Sprintf("c09-%d", i)
